@@ -48,6 +48,11 @@ def h_pack(ctx, twin=False):
     h2 = SpacePacketHeader.from_composite_fields(PacketId(PacketType(ptype), shf != 0, apid),
                                                  PacketSeqCtrl(SequenceFlags(sf), sc), dl, ver)
     ctx.holds("from_composite_fields", h2.pack() == ref)
+    pack_hands_out_fresh_buffers(ctx, h.pack, ref)
+    earlier_result_survives(ctx, lambda: sym_and(u.apid == apid, u.seq_count == sc, u.data_len == dl, u.ccsds_version == ver,
+                                                 u.packet_type == ptype, u.seq_flags == sf, u.pack() == ref),
+                            [lambda: SpacePacketHeader.unpack(bytes.fromhex("3fff7ffe1234")), lambda: h2.pack(),
+                             lambda: SpacePacketHeader.unpack(bytes(6))])
     if twin:
         ctx.holds("twin", raw != ref)
 
@@ -94,6 +99,24 @@ def h_from_raw(ctx):
     ctx.holds("PacketSeqCtrl == iff same bits", (PacketSeqCtrl.from_raw(a) == PacketSeqCtrl.from_raw(b)) == (a == b))
     c, d = ctx.int("c13", 0, 8191), ctx.int("d13", 0, 8191)
     ctx.holds("PacketId == iff same bits", (PacketId.from_raw(c) == PacketId.from_raw(d)) == (c == d))
+
+
+def h_from_raw_alias(ctx, base):
+    """objects returned by from_raw are the caller's: changing one must not change what a later from_raw of the same word
+    returns (narrow symbolic window so that a memoised implementation stays explorable)"""
+    raw13 = ctx.int("raw13", base & 0x1FC0, (base & 0x1FC0) + 63)
+    a = PacketId.from_raw(raw13)
+    a.apid = (raw13 & 0x7FF) ^ 0x2AA
+    a.ptype = 1 - (raw13 >> 12)
+    b = PacketId.from_raw(raw13)
+    ctx.holds("a second PacketId.from_raw of the same word is unaffected by changes to the first result",
+              sym_and(b.apid == (raw13 & 0x7FF), b.ptype == (raw13 >> 12), b.raw() == raw13))
+    raw16 = ctx.int("raw16", (base * 5) & 0xFFC0, ((base * 5) & 0xFFC0) + 63)
+    p = PacketSeqCtrl.from_raw(raw16)
+    p.seq_count = (raw16 & 0x3FFF) ^ 0x1555
+    q = PacketSeqCtrl.from_raw(raw16)
+    ctx.holds("a second PacketSeqCtrl.from_raw of the same word is unaffected by changes to the first result",
+              sym_and(q.seq_count == (raw16 & 0x3FFF), q.raw() == raw16))
 
 
 def h_refuse(ctx, which, side):
@@ -171,6 +194,9 @@ def cases(tier):
           Case("pack-twin", "pack", h_pack, dict(twin=True), expect_violation=True, bounds="reachability twin"),
           Case("from_raw", "from_raw", h_from_raw, bounds="all 13-bit / 16-bit words"),
           Case("helpers", "helpers", h_helpers, bounds="all field tuples")]
+    for base in tier_pick(tier, (0x1cd2, 0x0040), (0x1cd2, 0x0040, 0x0fff, 0x1000, 0x07c0)):
+        cs.append(Case("from_raw-alias-%04x" % base, "from_raw", h_from_raw_alias, dict(base=base),
+                       bounds="64-word windows around 0x%04x: result objects are independent" % base))
     for n in range(0, tier_pick(tier, 9, 17)):
         cs.append(Case("unpack-n%d" % n, "unpack", h_unpack, dict(n=n), bounds="arbitrary buffer of %d octets" % n))
     for which in ("apid", "sc", "dl"):
